@@ -416,7 +416,11 @@ func litVal(info *types.Info, e ast.Expr, t types.Type, depth int) (Val, bool) {
 				n = idx
 			}
 		}
-		return litVal(info, e, types.NewArray(u.Elem(), int64(n)), depth)
+		v, ok := litVal(info, e, types.NewArray(u.Elem(), int64(n)), depth)
+		if agg, isAgg := v.(*Agg); ok && isAgg && depth > 0 {
+			agg.T = t // a slice nested in a table keeps its slice type (see Evaluator.load)
+		}
+		return v, ok
 	case *types.Array:
 		n := int(u.Len())
 		if n > 4096 {
